@@ -176,6 +176,15 @@ fn convert_url(
     object_bbox: Option<NonZeroRect>,
     cache: &mut converter::Cache,
 ) -> Result<Option<Arc<Filter>>, ()> {
+    if state.parent_defs.contains(&node) {
+        log::warn!("Recursive 'filter' detected: {}", node.element_id());
+        return Err(());
+    }
+
+    let mut filter_state = state.clone();
+    filter_state.parent_defs.push(node);
+    let state = &filter_state;
+
     let units = convert_units(node, AId::FilterUnits, Units::ObjectBoundingBox);
     let primitive_units = convert_units(node, AId::PrimitiveUnits, Units::UserSpaceOnUse);
 
